@@ -90,6 +90,7 @@ def dump_snippet(info, tag):
         o.append('  P("%s", "%s", (long long)(%s));' % (info['header'], name, name))
     for tname, has_payload in info['types']:
         o.append('  P("%s", "sizeof(%s)", (long long)sizeof(%s));' % (info['header'], tname, tname))
+        o.append('  P("%s", "alignof(%s)", (long long)__alignof__(%s));' % (info['header'], tname, tname))
         if has_payload:
             o.append('  P("%s", "offsetof(%s,payload)", (long long)offsetof(%s, payload));' % (info['header'], tname, tname))
     o.append('}')
@@ -173,20 +174,20 @@ class Runner:
         self.repo, self.work, self.libobjs = repo, workdir, libobjs
         self.inc = os.path.join(repo, 'include')
 
-    def build_run(self, headers, infos, lang, formats=None):
+    def build_run(self, headers, infos, lang, formats=None, extra_flags=()):
         """returns ('ok', {(h,name): value}, dropped) or ('compile-error', diag, raw) / ('link-error', ..) / ('run-error', ..).
         Step 1 compiles a translation unit that only includes the headers: a failure there is the headers' fault.  Step 2
         compiles the dump; names whose dump line does not compile (not an integer constant expression here) are dropped and
         returned in `dropped` (the caller compares that with the header alone).  Step 3 links the dump with a second
         translation unit that includes the same headers (a definition leaking from a header breaks the link)."""
         # unique per call: the same header list may be scheduled twice (coupled triple that is also sampled) and run concurrently
-        tag = hashlib.sha1(('+'.join(headers) + lang).encode()).hexdigest()[:12] + '_%d' % next(_serial)
+        tag = hashlib.sha1(('+'.join(headers) + lang + ' '.join(extra_flags)).encode()).hexdigest()[:12] + '_%d' % next(_serial)
         ext = 'c' if lang == 'c' else 'cpp'
         src = os.path.join(self.work, 'tu_%s.%s' % (tag, ext))
         src2 = os.path.join(self.work, 'tu2_%s.%s' % (tag, ext))
         exe = os.path.join(self.work, 'tu_%s' % tag)
         cc = ['gcc', '-std=c99'] if lang == 'c' else ['g++', '-std=gnu++17']
-        base = cc + ['-w', '-O2', '-I' + self.inc]
+        base = cc + ['-w', '-O2', '-I' + self.inc] + list(extra_flags)
         open(src2, 'w').write(make_tu(headers, infos, includes_only=True))
         rc, so, se = sh(base + ['-c', src2, '-o', exe + '.2.o'])
         if rc != 0:
